@@ -337,6 +337,8 @@ type roundOpts struct {
 	addNode         bool
 	lateAddNode     bool
 	evict           int    // nodes forget a prepared statement after this many executions
+	bigEvery        int    // every n-th plain answer is about 20 KiB
+	burstsForwarded bool   // the bursts consist of forwarded queries only (48..127 per write)
 	override        bool   // configure a write-consistency override that applies to every write of the workload
 	stallMs         int    // hold back the answer to one heartbeat per data connection for this long
 	holdMs          int    // hold back every scripted answer for this long (requests pile up on the connection)
@@ -476,6 +478,9 @@ func runRound(scs []*reqScenario, nodes, numConns, nclients, workers int, out st
 	if ro.evict > 0 {
 		atomic.StoreInt64(&e.C.EvictAfter, int64(ro.evict))
 	}
+	if ro.bigEvery > 0 {
+		atomic.StoreInt64(&e.C.BigEvery, int64(ro.bigEvery))
+	}
 	t.Emit("ScenarioStart")
 	if ro.stallMs > 0 {
 		// the next heartbeat of every data connection is answered late: the proxy gives up on it, the answer still arrives
@@ -598,9 +603,12 @@ func runRound(scs []*reqScenario, nodes, numConns, nclients, workers int, out st
 				var frms []*frame.Frame
 				var toks, classes []string
 				n := 8 + rr.intn(24)
+				if ro.burstsForwarded {
+					n = 48 + rr.intn(80)
+				}
 				for q := 0; q < n; q++ {
 					tok := rr.newToken()
-					if q%7 == 6 {
+					if q%7 == 6 || ro.burstsForwarded {
 						frms = append(frms, frame.NewFrame(primitive.ProtocolVersion4, int16(300+q), &message.Query{Query: fmt.Sprintf(idemStmts[0], tok),
 							Options: &message.QueryOptions{Consistency: primitive.ConsistencyLevelOne}}))
 						classes = append(classes, "idem|QUERY|burst")
@@ -717,6 +725,8 @@ func init() {
 		restarts := fs.Int("restarts", 0, "random node restarts per round (connections dropped, prepared statements forgotten)")
 		addNode := fs.Bool("addnode", false, "a node joins after the proxy connected")
 		lateAddNode := fs.Bool("lateaddnode", false, "a node joins after the clients' sessions were created")
+		burstsForwarded := fs.Bool("burstsforwarded", false, "the bursts of -localbursts consist of forwarded queries only (48..127 per write)")
+		bigEvery := fs.Int("bigevery", 0, "every n-th plain OK answer carries about 20 KiB")
 		evict := fs.Int("evict", 0, "nodes forget a prepared statement after this many executions (frequent, concurrent re-preparations)")
 		kinds := fs.String("kinds", "", "comma separated request kinds for random scenarios (query,execute,batch,graph)")
 		stallMs := fs.Int("stall", 0, "answer one heartbeat per data connection this many ms late")
@@ -787,7 +797,7 @@ func init() {
 				j = len(scs)
 			}
 			if err := runRound(scs[i:j], *nodes, *numConns, *nclients, *workers, *out, st, *dropRate, int64(k), *maxDelay,
-				roundOpts{compression: *compression, restarts: *restarts, addNode: *addNode, lateAddNode: *lateAddNode, evict: *evict, stallMs: *stallMs, holdMs: *holdMs, override: *override, noDrops: *noDrops, idleClose: *idleClose, preCompression: *preCompression, postCompression: *postCompression, churn: *churn, localBursts: *localBursts}); err != nil {
+				roundOpts{compression: *compression, restarts: *restarts, addNode: *addNode, lateAddNode: *lateAddNode, evict: *evict, bigEvery: *bigEvery, burstsForwarded: *burstsForwarded, stallMs: *stallMs, holdMs: *holdMs, override: *override, noDrops: *noDrops, idleClose: *idleClose, preCompression: *preCompression, postCompression: *postCompression, churn: *churn, localBursts: *localBursts}); err != nil {
 				return err
 			}
 		}
